@@ -763,7 +763,8 @@ class SqlalchemyRender:
 
             sql_query = str(ast_query)
             if self.dialect.name == 'postgresql':
-                sql_query = sql_query.replace('`', '')
+                # drop the back-quotes around names, not the ones inside string literals
+                sql_query = re.sub(r"'(?:\\.|[^'\\])*'|`", lambda m: '' if m.group(0) == '`' else m.group(0), sql_query)
             return sql_query, None
 
 
